@@ -117,6 +117,18 @@ func (g *xGen) node(depth int) *xNode {
 	for i := 0; i < ar; i++ {
 		n.Args = append(n.Args, g.node(depth-1))
 	}
+	if n.S == "format" && ar >= 2 && t.WBool(3, 4) {
+		// a format string that really uses its arguments (one verb each)
+		verbs := []string{"%s", "%s", "%v", "%5s", "%-3s", "%q"}
+		f := ""
+		for i := 1; i < ar; i++ {
+			if i > 1 {
+				f += []string{"-", ":", "|", "/"}[t.W(4)]
+			}
+			f += verbs[t.W(len(verbs))]
+		}
+		n.Args[0] = &xNode{Kind: xLit, S: f}
+	}
 	return n
 }
 
@@ -350,6 +362,22 @@ func init() {
 						ns = append(ns, g.node(3))
 					}
 				}
+				if t.WBool(1, 2) {
+					// every helper takes its turn as the outermost call (a run index names it): state that one helper shares
+					// between workers is then exercised in every batch, not only when the dice pick that helper
+					root := &xGen{t: t, fns: []string{fns[int(rc.Index/2)%len(fns)]}}
+					for tries := 0; tries < 4; tries++ {
+						if n := root.node(3); n.Kind == xCall {
+							ns[len(ns)-1] = n
+							for i, a := range n.Args {
+								if a.Kind == xLit && t.WBool(1, 2) {
+									n.Args[i] = g.node(1) // mostly dynamic arguments
+								}
+							}
+							break
+						}
+					}
+				}
 				tpl = xPrint(ns)
 				refTpl = tpl
 			case "funcs":
@@ -358,6 +386,7 @@ func init() {
 				bg := &xGen{t: t, fns: append([]string{}, xScalar...), inBody: true}
 				var file strings.Builder
 				nDefs := 1 + t.W(3)
+				junkLines := 0
 				redefAt := -1
 				if nDefs >= 2 && t.WBool(1, 4) {
 					// one more definition that re-defines the first function in the middle of the file: definitions written before
@@ -376,6 +405,13 @@ func init() {
 						name = []string{"hf", "tab", "basename", "percent", "repeat"}[t.W(5)]
 					}
 					body := bg.node(2)
+					if t.WBool(1, 6) {
+						// a body that formats its arguments (every argument evaluated into one place before the result is built)
+						body = &xNode{Kind: xCall, S: []string{"format", "format", "coalesce", "sumi"}[t.W(4)], Args: []*xNode{{Kind: xLit, S: "0"}, {Kind: xGroup, N: 0}, {Kind: xGroup, N: 1}}}
+						if body.S == "format" {
+							body.Args[0] = &xNode{Kind: xLit, S: []string{"%s-%s", "%s:%s", "%v|%5s"}[t.W(3)]}
+						}
+					}
 					if body.Kind == xLit && body.S == "" {
 						body = &xNode{Kind: xGroup, N: 0}
 					}
@@ -396,6 +432,12 @@ func init() {
 						bg.fns = append(bg.fns, name) // later definitions may call earlier ones
 					}
 					text := name + " " + body.top()
+					if t.WBool(1, 8) {
+						// a line that is no definition (a name without an expression): the loader reports it and goes on; the
+						// definitions after it load as if it were not there
+						file.WriteString([]string{"todo\n", "later   # not written yet\n", "  stub  \n"}[t.W(3)])
+						junkLines++
+					}
 					if t.WBool(1, 3) {
 						file.WriteString("# a comment line\n")
 					}
@@ -430,6 +472,15 @@ func init() {
 				for n := 1 + t.W(3); n > 0; n-- {
 					call.Args = append(call.Args, cg.node(1))
 				}
+				if t.WBool(1, 3) {
+					// the function called again inside one of its own arguments: the body's stages are shared by both call sites
+					// and are entered a second time while the outer call is still being evaluated
+					inner := &xNode{Kind: xCall, S: call.S}
+					for n := 1 + t.W(3); n > 0; n-- {
+						inner.Args = append(inner.Args, cg.node(1))
+					}
+					call.Args[t.W(len(call.Args))] = inner
+				}
 				ns := []*xNode{call}
 				if t.WBool(1, 3) {
 					ns = append([]*xNode{{Kind: xLit, S: "k:"}}, ns...)
@@ -458,6 +509,13 @@ func init() {
 					rc.Violate("funcs-file-definition-lost", "the funcs file defines %d functions without an error, but %d were loaded:\n%q", len(fnNames), len(loaded), funcsText)
 					return
 				}
+				for _, name := range fnNames {
+					if _, ok := loaded[name]; !ok {
+						rc.Violate("funcs-file-definition-lost", "the funcs file defines %q without an error, but the loader did not return it (it returned %v):\n%q", name, sortedKeys(loaded), funcsText)
+						return
+					}
+				}
+				rc.Probes["funcs-file-non-definition-lines"] += int64(junkLines)
 				funclib.AddFunctions(loaded)
 			case "range":
 				shape := c10RangeShapes[t.W(len(c10RangeShapes))]
